@@ -69,9 +69,9 @@ def both(op):
     return ["obj 0", op, "obj 1", op]
 
 
-def lazy_case(cid, rng, b, nsec, nseg, ops=None, with_save=False):
+def lazy_case(cid, rng, b, nsec, nseg, ops=None, with_save=False, ctor="plain"):
     kind = rng.choice(["str", "file"])
-    lines = ["obj 0", "ctor plain", "load %s 0 %s" % (kind, hx(b)), "obj 1", "ctor plain", "load %s 1 %s" % (kind, hx(b))]
+    lines = ["obj 0", "ctor " + ctor, "load %s 0 %s" % (kind, hx(b)), "obj 1", "ctor " + ctor, "load %s 1 %s" % (kind, hx(b))]
     if ops is None:
         ops = []
         for _ in range(rng.randint(0, 24)):
@@ -221,6 +221,25 @@ def generate(rng, tier):
         # save is included for images whose addresses are ordinary (typed images, examples): random images carry
         # full-width addresses, for which the writer pads by terabytes
         cases.append(lazy_case("l%d" % i, rng, b, len(im.sections), len(im.segments), with_save=safe_to_save(im)))
+    # objects with a compression interface and images in which data sections are flagged compressed
+    # (SHF_COMPRESSED / SHF_RPX_DEFLATE): what the interface makes of the section must not depend on when it is loaded
+    import struct as _st
+    for i in range(24 if tier == "quick" else 240):
+        im, b = imgs[i % len(imgs)]
+        # plain program sections only: a flagged table section would also change every read-out made from it
+        cand = [k for k, s_ in enumerate(im.sections) if s_["type"] == 1 and s_["data"] is not None and s_["size"] > 0
+                and k != im.hdr["shstrndx"] and s_["sname"] != b".modinfo"]
+        if not cand:
+            continue
+        mb = bytearray(b)
+        e = "<" if im.enc == "lsb" else ">"
+        for k in rng.sample(cand, min(len(cand), rng.randint(1, 2))):
+            pos = im.hdr["shoff"] + k * im.hdr["shentsize"] + 8
+            fw = 4 if im.cls == "32" else 8
+            mb[pos:pos + fw] = _st.pack(e + ("I" if fw == 4 else "Q"), im.sections[k]["flags"] | rng.choice([0x800, 0x08000000]))
+        c = lazy_case("z%d" % i, rng, bytes(mb), len(im.sections), len(im.segments), ctor="compr")
+        c.meta["compressed"] = True
+        cases.append(c)
     # mutated images that may still load
     for i in range(60 if tier == "quick" else 600):
         im, b = imgs[i % len(imgs)]
@@ -287,10 +306,32 @@ def kf_c15_failed_stream(case, impl):
     return bool(fl) and all(f.startswith("lazy:") and ("; lazy b 1 " in f or "; lazy b 107 " in f or "; lazy b 4 " in f or "; lazy n " in f or "; lazy b " in f) for f in fl)
 
 
+def kf_c15_compressed_lazy(case, impl):
+    """An object with a compression interface loads a file lazily: a section flagged SHF_COMPRESSED / SHF_RPX_DEFLATE is
+    handed to the interface only by an eager load; the lazily loaded object returns the stored (compressed) bytes.
+    Only differences in the data of such sections."""
+    import re, struct
+    if case.meta["kind"] != "lazy" or not any(l == "ctor compr" for l in case.lines):
+        return False
+    fl = oracle(case, impl)
+    if not fl:
+        return False
+    im = elfimg.decode(image_of(case))
+    if im is None:
+        return False
+    flagged = set(k for k, s_ in enumerate(im.sections) if s_["flags"] & 0x08000800)
+    for f in fl:
+        m = re.match(r"^lazy: reference b 1 (\d+) \d+ : \S* ; lazy b 1 (\d+) ", f)
+        if not m or int(m.group(1)) != int(m.group(2)) or int(m.group(1)) not in flagged:
+            return False
+    return True
+
+
 def distribution(cases):
     d = {"lazy_cases": 0, "mutated_cases": 0, "translation_cases": 0, "frees": 0, "displaced_pieces": 0}
     for c in cases:
         d["lazy_cases"] += c.id.startswith("l"); d["mutated_cases"] += c.id.startswith("m")
         d["translation_cases"] += c.id.startswith("x"); d["frees"] += c.meta.get("frees", 0); d["displaced_pieces"] += c.meta.get("pieces", 0)
+        d["compression_interface_cases"] = d.get("compression_interface_cases", 0) + (1 if c.id.startswith("z") else 0)
         d["containers_shorter_than_the_image"] = d.get("containers_shorter_than_the_image", 0) + (1 if c.meta.get("short_container") else 0)
     return d
